@@ -208,6 +208,20 @@ def run(ctx):
                 ctx.report({'clause': 'entrypoints', 'stream': 'same_repr'}, {'case': name, 'expected': want, 'verdicts': verdicts},
                            'entry points disagree on a hint that prints like an earlier, different hint')
                 break
+    # call shapes: the parameter / return check rejects a violating object wherever Python binds it (keywords that collide with
+    # positional-only or variadic parameter names, excess keywords, *args, methods), exactly like is_bearable rejects it
+    from harness.shapes import run_shapes
+    rows = run_shapes()
+    ctx.evaluations += len(rows)
+    ctx.extra['call_shape_rows'] = len(rows)
+    for r in rows:
+        if r['kind'] in ('crash', 'decoration') or (r['kind'] == 'bad' and (r['outcome'] != r['where'] or r['door'])) or \
+                (r['kind'] == 'good' and (r['outcome'] != 'ok' or not r['door'])):
+            failures += 1
+            ctx.report({'clause': 'entrypoints', 'stream': 'call_shapes', 'shape': r.get('shape')}, r,
+                       'the decorator\'s check and is_bearable disagree for one way of passing the object')
+            if failures > 12:
+                break
     if proof_err is not None and not failures:
         ctx.broken(f'{PROP} ({proof_err.what})', proof_err.log)
 
@@ -275,6 +289,9 @@ def replay(ctx, path):
         body = json.load(f)
     ctx.safe_regenerate(regenerate)
     case = body['record'].get('case')
+    if body['record'].get('shape') and body['record'].get('pair'):
+        from harness.props import c01
+        return c01.replay(ctx, path)       # a call-shape row
     if case:
         obs = C.run_impl_cases([case])
         print('implementation:', json.dumps(obs[0])[:4000])
